@@ -26,7 +26,9 @@ REQUIRED_THEOREMS = [
     'C10_dataset_likelihood_rows', 'C10_likelihood_skip_empty_counterexample',
     'C10_derived_set_own', 'C10_derived_set_frame', 'C10_derived_copy', 'C10_derived_wrap',
     'C10_derived_untouched_cell', 'C10_derived_untouched', 'C10_derived_last_set', 'C10_derived_keeps_source',
-    'C10_derived_two_arms', 'C10_derived_shared_counterexample']
+    'C10_derived_two_arms', 'C10_derived_shared_counterexample',
+    'C10_resimulate_last_set', 'C10_resimulate_in_force', 'C10_resimulate_solve_pure', 'C10_resimulate_regimen_last',
+    'C10_resimulate_memo_dropped', 'C10_resimulate_memo_counterexample']
 RULE = ('regimens (dose, start, duration, period|None, num|None) with dyadic numbers (and the default 0.01 '
         'duration), single / finite / indefinite, incl. ill-formed ones (zero duration, duration > period, '
         'negative start, num without period); final times on every boundary (None, < start, = start, '
@@ -40,7 +42,10 @@ RULE = ('regimens (dose, start, duration, period|None, num|None) with dyadic num
         'controller and its predictive model, a predictive model of a predictive model\'s submodel, reduced / population / '
         'posterior / prior wrappers) interleaved with regimen choices through any of the objects, after which every '
         'object incl. the source is observed (dosing_regimen, table, events at the run behind sample, cumulative '
-        'input); direct and indirect administration into the library model and '
+        'input); ONE object (library one-compartment or erlotinib model, either route, set / simulated through the '
+        'model, a reduced model, or a predictive model\'s sample) given 2-4 regimens in turn (numbers or explicit '
+        'protocols, sometimes the same again) and solved after each for exactly the same parameters and time grid; '
+        'direct and indirect administration into the library model and '
         'generated compartment models; non-trivial = periodic regimen with non-zero start or a boundary final '
         'time; distinct = distinct (kind, start=0?, boundary class, route)')
 ASSUMPTIONS = [
@@ -1179,6 +1184,194 @@ def check_derived(ctx, chi, lib, rng):
     ctx.agree('C10.derived_regimens', reported, mregs, inp0, rtol=1e-12)
 
 
+# ------------------------------------------------------------------------------------------------
+# H: one object, a SEQUENCE of regimens, the same parameters and the same time grid after each
+# ------------------------------------------------------------------------------------------------
+def gen_regimen_step(rng):
+    """one regimen choice: the five numbers, or an explicit protocol of two events one after the other"""
+    if rng.random() < 0.3:
+        regs, t0 = [], 0.0
+        for _ in range(2):
+            reg, _ = gen_regimen(rng, valid_only=True)
+            if reg['period'] and not reg['num']:
+                reg['num'] = int(rng.integers(1, 4))
+            reg['start'] = t0 + float(rng.integers(0, 8)) / 4
+            span = reg['duration'] if not reg['period'] else reg['period'] * reg['num']
+            t0 = reg['start'] + span + 0.25
+            regs.append(reg)
+        return 'protocol', regs
+    reg, kind = gen_regimen(rng, valid_only=True)
+    return kind, [reg]
+
+
+def check_resimulated(ctx, chi, lib, rng):
+    """the usual way of comparing regimens at fixed parameters: ONE object is simulated, given another regimen
+    (numbers or an explicit protocol), and simulated again with exactly the same parameters and time grid, several
+    times over.  Every simulation must be the trajectory of the regimen that is in force THEN: cumulative input
+    (elimination off) = initial amounts + the doses scheduled up to each time, concentrations (elimination on)
+    = the documented equations driven by that regimen, the reported regimen / table = that regimen; results
+    returned earlier stay what they were.  The expectation comes from the numbers the harness passed
+    (harness/closedform.py), never from chi."""
+    import myokit
+    which = 'erlotinib' if rng.random() < 0.3 else 'one-compartment'
+    direct = bool(rng.random() < 0.5)
+    route = 'direct' if direct else 'indirect'
+    door = ['model', 'reduced', 'set through reduced, simulated on the model', 'predictive'][int(rng.integers(4))]
+    m = lib.erlotinib_tumour_growth_inhibition_model() if which == 'erlotinib' else lib.one_compartment_pk_model()
+    if rng.random() < 0.25:
+        m.set_administration('central', direct=not direct)      # the route is chosen twice: the last one counts
+    m.set_administration('central', direct=direct)
+    drug = ['central.drug_amount'] if direct else ['central.drug_amount', 'dose.drug_amount']
+    other = ['global.tumour_volume'] if which == 'erlotinib' else []
+    m.set_outputs(drug + other)
+    V = float(rng.choice([0.5, 1.0, 2.0]))
+    a0 = {'central.drug_amount': float(rng.choice([0.0, 0.5])), 'dose.drug_amount': float(rng.choice([0.0, 0.25]))}
+    tv0 = float(rng.choice([0.75, 1.5]))
+    ka = float(rng.uniform(0.5, 2.0))
+    kes = [0.0] + ([float(rng.uniform(0.3, 1.5))] if which == 'one-compartment' and rng.random() < 0.5 else [])
+
+    def vals(ke):
+        return {'central.drug_amount': a0['central.drug_amount'], 'dose.drug_amount': a0['dose.drug_amount'],
+                'global.tumour_volume': tv0, 'central.size': V, 'dose.absorption_rate': ka,
+                'global.critical_volume': 1.0, 'global.elimination_rate': ke, 'global.kappa': 0.0,
+                'global.lambda': 0.0}
+    steps = []
+    for _ in range(int(rng.integers(2, 5))):
+        if steps and rng.random() < 0.12:
+            steps.append(('again:' + steps[-1][0], [dict(r) for r in steps[-1][1]]))     # the same regimen again
+        else:
+            steps.append(gen_regimen_step(rng))
+    # ONE grid for all steps, on which every regimen of the sequence shows
+    pts, t_hi = set(), 1.0
+    for _, regs in steps:
+        for reg in regs:
+            p = reg['period'] or 0.0
+            pts.update([reg['start'] + reg['duration'] / 2, reg['start'] + reg['duration'],
+                        reg['start'] + p + reg['duration'] / 4])
+            t_hi = max(t_hi, reg['start'] + p + reg['duration'] + 0.25)
+    t_hi = min(t_hi, 8.0)
+    pts = sorted(t for t in pts if t < t_hi)
+    if len(pts) > 6:
+        pts = [pts[int(k)] for k in sorted(rng.choice(len(pts), 6, replace=False))]
+    times = [float(t) for t in sorted(set([0.0] + pts + [t_hi]))]
+    # the objects
+    setter, sim = m, m
+    if door != 'model' and door != 'predictive':
+        red = chi.ReducedMechanisticModel(m)
+        red.fix_parameters({'central.size': V})
+        setter = red
+        sim = red if door == 'reduced' else m
+    if door == 'predictive':
+        pm = chi.PredictiveModel(m, [chi.GaussianErrorModel() for _ in drug + other])
+        setter = sim = pm
+    n_drug = len(drug)
+    own_a0 = sum(a0[n] for n in drug)           # (a depot amount exists only with the indirect route)
+    lm = cf.one_compartment_documented(depot=not direct)
+    inp0 = {'model': which, 'route': route, 'door': door, 'times': times, 'initial amounts': a0,
+            'sequence': [(k, regs) for k, regs in steps]}
+    ctx.case('resimulate/' + route, nontrivial='resimulate/%s/%s/%s/%s' % (
+        which, route, door.split(',')[0], '>'.join(k.split(':')[0][:3] for k, _ in steps)), sample=inp0)
+
+    def simulate(ke, seed):
+        v = vals(ke)
+        if door == 'predictive':
+            psi = [v[n] for n in m.parameters()] + [1e-9] * (n_drug + len(other))
+            return np.asarray(pm.sample(psi, times, seed=seed, return_df=False))[:, :, 0]
+        vec = [v[n] for n in sim.parameters()]
+        out = sim.simulate(vec, times)
+        return np.asarray(out[0] if isinstance(out, tuple) else out)
+    held = []
+    calls, chi_inputs = [], []          # the same history for the Lean state machine (`simTrace`)
+    seed = int(rng.integers(1 << 30))
+    for k, (kind, regs) in enumerate(steps):
+        inp = dict(inp0, step=k, regimen_in_force=regs)
+        try:
+            if kind.endswith('protocol'):
+                p = myokit.Protocol()
+                for reg in regs:
+                    p.schedule(reg['dose'] / reg['duration'], reg['start'], reg['duration'],
+                               reg['period'] or 0, reg['num'] or 0 if reg['period'] else 0)
+                setter.set_dosing_regimen(p)
+                calls.append(['protocol', [ev_tuple(e) for e in p.events()]])
+            else:
+                setter.set_dosing_regimen(**regs[0])
+                r0 = regs[0]
+                calls.append(['set', r0['dose'], r0['start'], r0['duration'], r0['period'], r0['num']])
+            sched = []
+            for reg in regs:
+                sched += cf.schedule(reg['dose'], reg['start'], reg['duration'], reg['period'], reg['num'],
+                                     times[-1] + 1)
+            want_ev = [expected_event(reg) for reg in regs]
+            # what the object reports
+            if door == 'predictive':
+                for T in (None, times[-1]):
+                    ct = table_of(pm.get_dosing_regimen(T))
+                    want = expected_table(regs, T)
+                    ctx.spec('C10.table/after_regimen_change',
+                             core.close(ct, want, 1e-12) if (ct is not None and want is not None) else
+                             (ct is None and want is None), dict(inp, final_time=T),
+                             {'table': ct, 'doses of the regimen in force up to final_time': want})
+            else:
+                proto = m.dosing_regimen()
+                got = None if proto is None else [ev_tuple(e) for e in proto.events()]
+                ctx.spec('C10.protocol_attached/after_regimen_change',
+                         got is not None and core.close(got, want_ev, 1e-12), inp,
+                         {'dosing_regimen()': got, 'regimen in force': want_ev})
+            # what the simulated system receives: same parameters, same times as for the regimens before
+            for ke in kes:
+                res = simulate(ke, seed)
+                held.append((k, ke, res, np.array(res, copy=True)))
+                calls.append(['solve', kes.index(ke)])          # the same request every time
+                chi_inputs.append(None if ke else [float(x) - own_a0 for x in res[:n_drug].sum(axis=0)])
+                if ke == 0.0:
+                    total = res[:n_drug].sum(axis=0)
+                    want = [own_a0 + cf.delivered(sched, t) for t in times]
+                    ok = core.close(list(total), want, TOL, 1e-7)
+                    detail = {'drug in the system': total, 'initial amounts + doses scheduled up to then': want}
+                    if other:
+                        ok = ok and core.close(list(res[n_drug]), [tv0] * len(times), TOL, 1e-7)
+                        detail['tumour volume (no growth, no effect)'] = res[n_drug]
+                        detail['its initial value'] = tv0
+                    tag = 'C10.cumulative_input/after_regimen_change' + ('/sample' if door == 'predictive' else '')
+                    ctx.spec(tag, ok, inp, detail)
+                else:
+                    ov, _ = lm.solve({'A': a0['central.drug_amount'], 'Ad': a0['dose.drug_amount'] if not direct else 0.0},
+                                     {'ke': ke, 'V': V, 'ka': ka}, times, [], ['A'] if direct else ['A', 'Ad'], sched)
+                    err = cf.rel_err(res[:n_drug], ov, 1e-3)
+                    # (sampled values carry measurement noise of the order 1e-9)
+                    ok = core.close(np.asarray(res[:n_drug]).tolist(), np.asarray(ov).tolist(), TOL, 1e-7) \
+                        if door == 'predictive' else err <= TOL
+                    ctx.spec('C10.simulated_values/after_regimen_change', ok,
+                             dict(inp, ke=ke, V=V, ka=ka), {'chi': res, 'oracle': ov, 'rel_err': err})
+        except Exception as e:  # noqa
+            ctx.spec('C10.cumulative_input/after_regimen_change', False, inp, {'raised': repr(e)[:300]})
+            return
+    # correspondence: the Lean state machine says which regimen each solve is run with; what that regimen has
+    # delivered by each time (model) against what chi's system has received (beyond the initial amounts)
+    mv = ctx.model('C10.resim', calls)
+    if mv[0] == 'ok':
+        model_inputs = []
+        for (q, evs), got in zip(mv[1], chi_inputs):
+            if got is None:
+                model_inputs.append(None)
+                continue
+            evs = [] if evs is None else [[float(rat(a)), float(rat(b)), float(rat(c)), float(rat(d)), int(mu)]
+                                          for a, b, c, d, mu in evs]
+            model_inputs.append([float(rat(x)) for x in ctx.model('C10.pacemulti', evs, times)[1]])
+        ctx.agree('C10.resimulated_input', chi_inputs, model_inputs, inp0, rtol=TOL, atol=1e-7)
+        if door != 'predictive':
+            proto = m.dosing_regimen()
+            ctx.agree('C10.resimulated_regimen', None if proto is None else [ev_tuple(e) for e in proto.events()],
+                      None if mv[2] is None else [[float(rat(a)), float(rat(b)), float(rat(c)), float(rat(d)), int(mu)]
+                                                  for a, b, c, d, mu in mv[2]], inp0, rtol=1e-12)
+    else:
+        ctx.agree('C10.resimulated_input', 'ok', mv[0], inp0)
+    # results handed out earlier are not touched by the later calls
+    bad = [(k, ke) for k, ke, res, snap in held if not np.array_equal(res, snap)]
+    ctx.spec('C10.cumulative_input/result_held_across_regimen_change', not bad, inp0,
+             {'(step, elimination rate) of results that changed after they were returned': bad})
+
+
 def integrate_pacing(protocol, t_end):
     import myokit
     ps = myokit.PacingSystem(protocol)
@@ -1379,6 +1572,9 @@ def run(ctx):
         # --- objects derived from one model object
         for i in range(40 if quick else 600):
             ctx.guard(check_derived, ctx, chi, lib, ctx.sub_rng(6 * 10 ** 5 + i))
+        # --- one object, several regimens in turn, same parameters and time grid
+        for i in range(40 if quick else 500):
+            ctx.guard(check_resimulated, ctx, chi, lib, ctx.sub_rng(7 * 10 ** 5 + i))
         # --- generated compartment models, dosed
         for i in range(24 if quick else 400):
             ctx.guard(check_generated_dosing, ctx, chi, i, ctx.sub_rng(3 * 10 ** 5 + i))
